@@ -307,6 +307,8 @@ class Ops:
         if k == "opaque":
             if a.z is not None and b.z is not None:
                 return a.z == b.z
+        if k == "dyn":
+            return z3.simplify(a.z == b.z)
         raise EngineError(f"identity of {a} and {b}")
 
     # ------------------------------------------------------------------ == protocol
